@@ -25,7 +25,9 @@ def shards(tier, seed):
 
     names = list(S.COMMANDS)
     out = [{"id": "seq-pairs", "kind": "pairs"}, {"id": "alias", "kind": "alias"}, {"id": "hashseeds", "kind": "hashseeds", "probe": str(seed)}]
-    out += [{"id": "first-decodes-%d" % i, "kind": "first-decodes", "salt": "%s-%d" % (seed, i)} for i in range(2 if tier == "quick" else 12)]
+    # (one interpreter per length-site position: the very first odd response a decoder sees there has that field changed, so what
+    # it decodes to is untouched by anything decoded before)
+    out += [{"id": "first-decodes-%d" % i, "kind": "first-decodes", "salt": "%s-%d" % (seed, i // 6), "site": i % 6} for i in range(6 if tier == "quick" else 18)]
     if tier == "quick":
         out.append({"id": "seq-triples", "kind": "triples", "n": 2000, "firsts": None})
         rng = random.Random("c09pairs:%s" % seed)
@@ -227,14 +229,14 @@ def first_decodes(ctx, shard):
 
     for name, f in D.FORMATS.items():
         odd = []
-        for _rep in range(4):
+        for _rep in range(16):
             v = f.gen(rng)
             try:
                 b = bytearray(f.encode(v))
                 sites = f.length_sites(v, b)
             except Exception:  # noqa: BLE001
                 continue
-            for off, n in sites:
+            for off, n in sites[shard.get("site", 0)::6]:
                 for val in (0, 1, (1 << (8 * n)) - 1, int.from_bytes(b[off:off + n], "big") // 2):
                     x = bytearray(b)
                     x[off:off + n] = val.to_bytes(n, "big")
